@@ -759,7 +759,7 @@ func (f *Frame) bindResults(env *SpecEnv, fn *ssa.Function, vals []Val) {
 func (f *Frame) allowedLocs() (map[string][]*Loc, bool) {
 	e := f.e
 	c := e.con
-	if c == nil || c.ModAll || len(c.Modifies) == 0 {
+	if c == nil || c.ModAll || (len(c.Modifies) == 0 && !c.Pure) {
 		return nil, false
 	}
 	env := f.specEnv(f.entry, nil, nil)
